@@ -524,6 +524,7 @@ bool Instance::configure_tx_txin() {
                 // Key path spending (stack size is 1 after removing optional annex)
                 validation = CScript() << program << OP_CHECKSIG;
                 sigver = SigVersion::TAPROOT;
+                wstack_to_stack = stack.size(); // the annex is not a stack element
                 // this is the preamble; it is btcdeb pretending that a script exists which doesn't
                 has_preamble = true;
             } else {
